@@ -753,6 +753,11 @@ def execute(trace: Dict[str, Any]) -> Dict[str, Any]:
             # operator / macro / literal semantics differ from it -- with or without host calls
             # (S3-meta agreed, see core_disagreement) -- that reasoning does not apply
             unknown, missing = [], []
+        if want == ERR:
+            # once the result is an error, how far an implementation went on evaluating the rest
+            # is its own business (the interpreter e.g. leaves exists_one() by an exception that
+            # skips the other operand of an enclosing ||): no call is *required* any more
+            missing = []
         detail = dict(must=must[:6], may=may[:6], got=got_calls[:8], text=rec["text"],
                       kinds=kinds_used, faults=prog["faults"])
         if unknown:
@@ -977,47 +982,49 @@ def _simpler(node: Any) -> List[Any]:
     return out
 
 
-def _unbound_list_elements(node: Any, prog: Dict[str, Any]) -> bool:
+def _is_unbound_call(node: Any, prog: Dict[str, Any]) -> bool:
+    return (isinstance(node, list) and bool(node) and node[0] == "call"
+            and node[1] not in prog["supplied"] and node[1] not in SHADOW)
+
+
+def _walk(node: Any, prog: Dict[str, Any], in_list: bool, replace: bool) -> Any:
+    """Finds (replace=False: returns True/False) or replaces by a built-in error (replace=True:
+    returns the new tree) every call of an unbound name that lies inside an element expression of
+    a list literal -- directly, or under operators through which the error value flows."""
     if not isinstance(node, list) or not node:
-        return False
-    if node[0] == "list":
-        for el in node[1]:
-            if el[0] == "call" and el[1] not in prog["supplied"] and el[1] not in SHADOW:
-                return True
+        return node if replace else False
+    if in_list and _is_unbound_call(node, prog):
+        return (["div0", ["int", 1]] if not is_bool_name(node[1]) else ["errb"]) if replace else True
+    inside = in_list or node[0] == "list"
+    if replace:
+        out = [node[0]]
+        for ch in node[1:]:
+            if isinstance(ch, list):
+                if ch and isinstance(ch[0], str) and ch[0] in _KINDS:
+                    out.append(_walk(ch, prog, inside, True))
+                else:
+                    out.append([_walk(x, prog, inside, True) if isinstance(x, list) else x for x in ch])
+            else:
+                out.append(ch)
+        return out
     for ch in node[1:]:
         if isinstance(ch, list):
             if ch and isinstance(ch[0], str) and ch[0] in _KINDS:
-                if _unbound_list_elements(ch, prog):
+                if _walk(ch, prog, inside, False):
                     return True
             else:
                 for x in ch:
-                    if isinstance(x, list) and _unbound_list_elements(x, prog):
+                    if isinstance(x, list) and _walk(x, prog, inside, False):
                         return True
     return False
 
 
+def _unbound_list_elements(node: Any, prog: Dict[str, Any]) -> bool:
+    return bool(_walk(node, prog, False, False))
+
+
 def _replace_unbound_list_elements(node: Any, prog: Dict[str, Any]) -> Any:
-    if not isinstance(node, list) or not node:
-        return node
-    if node[0] == "list":
-        els = []
-        for el in node[1]:
-            if el[0] == "call" and el[1] not in prog["supplied"] and el[1] not in SHADOW:
-                els.append(["div0", ["int", 1]])  # a built-in error in the same position
-            else:
-                els.append(_replace_unbound_list_elements(el, prog))
-        return ["list", els]
-    out = [node[0]]
-    for ch in node[1:]:
-        if isinstance(ch, list):
-            if ch and isinstance(ch[0], str) and ch[0] in _KINDS:
-                out.append(_replace_unbound_list_elements(ch, prog))
-            else:
-                out.append([_replace_unbound_list_elements(x, prog) if isinstance(x, list) else x
-                            for x in ch])
-        else:
-            out.append(ch)
-    return out
+    return _walk(node, prog, False, True)
 
 
 def _ast_group(trace: Dict[str, Any], i: int) -> List[int]:
